@@ -1,1 +1,14 @@
 import Cutadapt.Properties.C15
+#print axioms Cutadapt.C15.adapterName_eq
+#print axioms Cutadapt.C15.lookupLast_spec
+#print axioms Cutadapt.C15.demux_routing
+#print axioms Cutadapt.C15.demux_routing_paired
+#print axioms Cutadapt.C15.comb_routing
+#print axioms Cutadapt.C15.demuxWriter_paths
+#print axioms Cutadapt.C15.demux_writers_opened
+#print axioms Cutadapt.C15.comb_writers_opened
+#print axioms Cutadapt.C15.demux_is_partition_per_read
+#print axioms Cutadapt.C15.plain_ok_demux_ok
+#print axioms Cutadapt.C15.partition_of_read
+#print axioms Cutadapt.C15.demux_is_partition_of_plain_output
+#print axioms Cutadapt.C15.cli_demux_partition
